@@ -974,6 +974,7 @@ func (c *DnsController) processBpfUpdateTask(task *bpfUpdateTask, draining bool)
 	if task == nil || task.cache == nil {
 		return false
 	}
+	verifYield("dns-bpf-update-task")
 	if rt := c.runtime(); rt != nil && rt.cacheAccessCallback != nil {
 		if err := rt.cacheAccessCallback(task.cache); err != nil {
 			if c.log != nil {
